@@ -32,6 +32,7 @@ type Program struct {
 	tagMu        sync.Mutex
 	callOrdinals map[*ssa.Function]map[*ssa.CallCommon]int
 	allocChecks  map[string]bool
+	optimistic   map[string]bool // callees without contract that are treated as free of effects (second opinion of the check)
 	allocBounds  map[string]int64
 	idCache      map[*ssa.Function]string
 	implCache    map[string][]types.Type
